@@ -19,7 +19,7 @@ META = {
     "engine": "E1 nir2smt (NIR netlist incl. Memory/SyncWritePort/SyncReadPort cells -> z3 QF_BV)",
     "encoded": ["wishbone.sram.WishboneSRAM.__init__", "wishbone.sram.WishboneSRAM.elaborate",
                 "amaranth.lib.memory.Memory read_port/write_port (through NIR memory cells)"],
-    "also": 'init images full / short / one word / empty, given as list / tuple / generator / iterator / map, optionally replaced through the init attribute; 128x8 and 64x32 memories; geometry obligation',
+    "also": 'init images full / short / one word / empty, given as list / tuple / generator / iterator / map, optionally replaced through the init attribute, values also as negative (twos-complement) integers, no init argument at all, a second instance of the same geometry given an image meanwhile; 128x8 and 64x32 memories; geometry obligation',
     "bounds": "2 frames from a free state (FFs, read-port register and every memory row symbolic) + 1 frame from "
               "reset; size 2..16 granules (thorough 2..64), data width 8-64, granularity <= data width, "
               "writable and read-only",
@@ -50,7 +50,15 @@ def configs(tier, seed):
                     # image length: full, short (rest reads zero), empty; optionally replaced later through `.init`
                     length = ["full", "short", "full", "one", "empty"][(len(out) // 2) % 5]
                     out.append({"size": size, "dw": dw, "gran": gran, "writable": writable, "pat": seed + 1, "init": form,
-                                "len": length, "reinit": [None, None, "short", "empty"][(len(out) // 3) % 4]})
+                                "len": length, "reinit": [None, None, "short", "empty"][(len(out) // 3) % 4],
+                                # image values handed over as NEGATIVE integers (two's complement of the same row)
+                                "neg": len(out) % 4 == 1})
+    # no init argument at all (the default image), optionally after ANOTHER instance of the same geometry was built
+    # without one and then given an image through `.init`: instances must not share their contents
+    for k, (size, dw, gran) in enumerate(((4, 8, 8), (8, 32, 8), (16, 16, 16), (8, 64, 16))):
+        for other in (False, True):
+            out.append({"size": size, "dw": dw, "gran": gran, "writable": bool(k % 2) or other, "pat": seed + 1,
+                        "init": "default", "len": "empty", "reinit": None, "other": other})
     out.append({"size": 128, "dw": 8, "gran": 8, "writable": True, "pat": seed + 1, "init": "list"})
     out.append({"size": 256, "dw": 32, "gran": 8, "writable": True, "pat": seed + 1, "init": "gen"})
     return out
@@ -78,11 +86,22 @@ def _pattern(cfg, final=True):
 def maker(cfg):
     def make():
         pat, second = _pattern(cfg, final=False)
+        if cfg.get("neg"):
+            pat = [v - (1 << cfg["dw"]) if i % 2 == 0 else v for i, v in enumerate(pat)]
+            second = None if second is None else [v - (1 << cfg["dw"]) if i % 2 else v for i, v in enumerate(second)]
         form = cfg.get("init", "list")
-        init = {"list": lambda: list(pat), "tuple": lambda: tuple(pat), "gen": lambda: (v for v in pat),
-                "iter": lambda: iter(pat), "map": lambda: map(int, pat)}[form]()
-        dut = WishboneSRAM(size=cfg["size"], data_width=cfg["dw"], granularity=cfg["gran"],
-                           writable=cfg["writable"], init=init)
+        if form == "default":
+            if cfg.get("other"):
+                rnd = random.Random(cfg["pat"])
+                other = WishboneSRAM(size=cfg["size"], data_width=cfg["dw"], granularity=cfg["gran"], writable=cfg["writable"])
+            dut = WishboneSRAM(size=cfg["size"], data_width=cfg["dw"], granularity=cfg["gran"], writable=cfg["writable"])
+            if cfg.get("other"):
+                other.init = [rnd.getrandbits(cfg["dw"]) | 1 for _ in range(cfg["size"] * cfg["gran"] // cfg["dw"])]
+        else:
+            init = {"list": lambda: list(pat), "tuple": lambda: tuple(pat), "gen": lambda: (v for v in pat),
+                    "iter": lambda: iter(pat), "map": lambda: map(int, pat)}[form]()
+            dut = WishboneSRAM(size=cfg["size"], data_width=cfg["dw"], granularity=cfg["gran"],
+                               writable=cfg["writable"], init=init)
         if second is not None:
             dut.init = second          # a new image through the public attribute replaces the old one entirely
         res = list(dut.wb_bus.memory_map.resources())
@@ -159,7 +178,27 @@ def queries(h, cfg):
     ]
 
 
+def _independent(cfg):
+    """a never-elaborated instance accepts a new image whatever happened to other instances before"""
+    from amaranth.hdl import Fragment
+    try:
+        Fragment.get(maker(cfg)().top, None)
+        maker(cfg)()
+        return True
+    except Exception:
+        return False
+
+
 def check(cfg, out, stats):
+    if cfg.get("other") and not _independent(cfg):
+        from ..bmc import mark_violation
+        from ..e1 import cfg_key
+        mark_violation("instances-independent")
+        out.violations.append({"key": f"instances-independent@{cfg_key(cfg)}",
+                               "what": f"C15 after one SRAM was elaborated, assigning .init of ANOTHER, never elaborated "
+                                       f"instance of the same geometry fails ({cfg_key(cfg)})", "query": "independent",
+                               "cfg": cfg, "stimulus": [], "prefix": 0, "k": 0, "detail": {}})
+        return
     h = maker(cfg)()
     exp_depth = cfg["size"] * cfg["gran"] // cfg["dw"]
     if h.md.depth != exp_depth:
@@ -175,6 +214,8 @@ def check(cfg, out, stats):
 
 
 def replay(v):
+    if v["query"] == "independent":
+        return not _independent(v["cfg"])
     if v["query"] == "geometry":
         return maker(v["cfg"])().md.depth != v["cfg"]["size"] * v["cfg"]["gran"] // v["cfg"]["dw"]
     return _replay(__import__(__name__, fromlist=["x"]), v)
